@@ -29,7 +29,7 @@ CONFIG = {
     "tables": ["iso_variant"],
     "lean_targets": ["SophiaProofs.Props.C07", "SophiaProofs.Audit.C07"],
     "theorems": ["iso_symm", "iso_false_size", "iso_false_bcount", "iso_false_ground", "iso_relabel", "iso_relabel_partial",
-                 "iso_relabel_witness", "iso_relabel_fails_shallow", "isort_spec"],
+                 "iso_relabel_witness", "iso_relabel_fails_shallow", "isort_spec", "bcount_gate_subsumed", "colour_covered"],
     "native_ok": [],
     "trivial_re": r"^n1=0 n2=0 |^skip",
     "rule": "10 hand-made shapes (symmetric/indistinguishable blank nodes, one label in several positions, blank nodes in quoted "
